@@ -104,6 +104,11 @@ def explore(threads: list[Thread], init_vars: dict[str, bool], fds: list[str], l
                         if nv.get(o[1], False) != o[2]:
                             failed_test = True
                             continue  # this path is not the one taken in this state
+                    elif k == "testin":
+                        # ("testin", var, values, truth): the path is taken iff (var's value is one of `values`) == truth
+                        if (nv.get(o[1], False) in o[2]) != o[3]:
+                            failed_test = True
+                            continue
                     elif k == "set":
                         nv[o[1]] = o[2]
                     elif k == "use":
